@@ -103,6 +103,9 @@ def scenario(rng, S, M, hashmode, nsweeps, workers=0):
     if present:
         lines += ["updp %d 4242" % present[-1], "find %d 0" % present[-1], "erasep %d 0" % present[-1], "find %d 0" % present[-1]]
     lines += ["lock 0 0", "ltins %d 1" % keys.pop(), "ltinsmv %d 2" % keys.pop(), "ltinslv %d 2" % keys.pop()]
+    lines += ["ltcountp %d 0" % (present[0] if present else keys[-1]), "ltfindp %d 0" % keys[-1], "ltcountp %d 0" % keys[-1]]
+    if present:
+        lines += ["ltfindp %d 0" % present[0], "lterasep %d 0" % present[0], "ltcountp %d 0" % present[0]]
     if present:
         lines += ["ltinsmv %d 3" % present[0], "ltinslv %d 3" % present[0]]
     lines += ["unlock 0 0", "scan", "oldfreed", "destroy"]
@@ -153,6 +156,8 @@ def classify(line_in, line_out):
             props.add("C04")
         if "size()" in msg or "[count" in msg or "count]" in msg or ", count" in msg:
             props.add("C05")        # the per-stripe counters no longer add up to the number of stored pairs
+            if "lt" in line_in.split()[0] or (len(line_in.split()) > 1 and line_in.split()[1].startswith("lt")):
+                props.add("C09")    # through a locked table: size()/empty() disagree with what iteration visits
         return props, msg
     if line_out.startswith("ARGS") or line_out.startswith("HETERO"):
         return {"C16"}, line_out
